@@ -69,6 +69,41 @@ def cases(tier, rng):
     yield {"k": 205, "args": [list(range(256))], "group": "remap"}
 
 
+def _net(flw):
+    ids = np.asarray(flw.idxs_ds)
+    return ([(-1 if x == flw._mv else int(x)) for x in ids.tolist()], sorted(int(x) for x in flw.idxs_pit))
+
+
+def _round_trip(pyflwdir, flw, v, tgt, data, src, nr, nc):
+    """the export, parsed again (with the format named, and inferred where the codes leave no doubt), is the network it
+    was exported from; so is the export of a network parsed with a mask that cuts links (round-4 seeds).  -> message or None"""
+    from common import call_impl
+    want = _net(flw)
+    st, f2 = call_impl(pyflwdir.from_array, v, ftype=FMT[tgt])
+    if st != "ok" or _net(f2) != want:
+        return f"export to {FMT[tgt]} parsed again differs from the network it came from ({st})"
+    vals = set(int(x) for x in np.asarray(v).ravel()) if tgt < 2 else set()
+    if tgt == 1 and vals & {3, 5, 6, 7, 9}:          # codes no D8 raster contains: the inference cannot take it for D8
+        st, f3 = call_impl(pyflwdir.from_array, v)
+        if st != "ok" or f3.ftype != "ldd" or _net(f3) != want:
+            return f"LDD export parsed with ftype='infer' gives ftype {getattr(f3, 'ftype', st)} / another network"
+    # a mask that cuts links: cells draining into a masked-out cell become pits, and exporting keeps it so
+    n = nr * nc
+    m = np.array([((i * 7 + int(np.asarray(data).ravel()[i % np.asarray(data).size])) % 4) != 0 for i in range(n)]).reshape(nr, nc)
+    st, fm = call_impl(pyflwdir.from_array, data, ftype=FMT[src], mask=m)
+    if st == "ok":
+        nm = _net(fm)
+        bad = [i for i, d in enumerate(nm[0]) if d >= 0 and nm[0][d] < 0]
+        if bad:
+            return f"from_array(mask=...) leaves cells {bad[:4]} draining into cells outside the network"
+        st, vm = call_impl(fm.to_array, FMT[tgt])
+        if st == "ok":
+            st, f4 = call_impl(pyflwdir.from_array, vm, ftype=FMT[tgt])
+            if st != "ok" or _net(f4) != nm:
+                return f"masked network exported to {FMT[tgt]} and parsed again differs"
+    return None
+
+
 def impl(case):
     from common import call_impl
     from implutil import ds_array
@@ -103,6 +138,9 @@ def impl(case):
             return [[1]]
         if st != "ok":
             return [[-2], [st]]
+        rt = _round_trip(pyflwdir, flw, v, tgt, data, src, nr, nc)
+        if rt:
+            return [[-6], [rt]]
         if tgt < 2:
             if v.dtype != np.uint8 or v.shape != (nr, nc):
                 return [[-3], [str(v.dtype)]]
@@ -144,7 +182,7 @@ def _nb8(ds, nc):
 
 def oracle(case, out):
     k, a = case["k"], case["args"]
-    if out and out[0] in ([-2], [-3], [-4]):
+    if out and out[0] in ([-2], [-3], [-4], [-6]):
         return ("convert:unexpected-outcome", f"{out}")
     if k == 206:
         src, tgt, nr, nc = a[0][0], a[1][0], a[2][0], a[3][0]
